@@ -111,7 +111,9 @@ func callEvent(sc, idx int, it item, lazy, dsad bool, own, phase string, g int, 
 	ev := vh.M{"op": "call", "sc": sc, "in": idx, "first": it.first.String(),
 		"lazy": lazy, "dsad": dsad, "own": own, "digest": r.digest, "intact": r.intact, "phase": phase,
 		"sig": it.first.String()}
-	_ = g
+	if g > 0 {
+		ev["g"] = g // goroutine (concurrent phase only)
+	}
 	if r.pmsg != "" {
 		m := r.pmsg
 		if len(m) > 120 {
@@ -217,12 +219,18 @@ func (u *universe) pool(r *vh.Rand, k int, wantCsum bool) []item {
 
 var progress atomic.Int64
 var curDesc atomic.Value
+var ticks racerep.Ticks // progress inside a concurrent scenario, per goroutine
 
 func watchdog(tr *vh.Trace, limit int) {
 	last, stuck := int64(-1), 0
+	lastTick := int64(-1)
 	for {
 		time.Sleep(time.Second)
 		cur := progress.Load()
+		if tk := ticks.Sum(); cur == last && tk != lastTick {
+			lastTick, stuck = tk, 0
+			continue
+		}
 		if cur == last {
 			stuck++
 		} else {
@@ -396,6 +404,7 @@ func runConc(c *ctx, u *universe, scen []histSc, pools, k, g int, r *vh.Rand) {
 					for _, idx := range s.H {
 						i := (idx - 1) % len(items)
 						res := doCall(items[i], shared[i], s.Opt.Lazy, s.Opt.Dsad, s.Opt.Own, false)
+						ticks.Tick(gi)
 						for _, ev := range callEvent(sc, i+1, items[i], s.Opt.Lazy, s.Opt.Dsad, s.Opt.Own, "conc", gi+1, res) {
 							ev["_nl"] = res.nl
 							evs[gi] = append(evs[gi], ev)
@@ -496,6 +505,7 @@ func runShare(c *ctx, u *universe, scen []histSc, g, rounds int, r *vh.Rand) {
 				for rd := 0; rd < rounds; rd++ {
 					for _, a := range prog {
 						x := doRead(p, a)
+						ticks.Tick(gi)
 						dup := false
 						for i := range res[gi] {
 							if res[gi][i].acc == x.acc && res[gi][i].digest == x.digest {
